@@ -398,7 +398,8 @@ func (c *Ctx) constVal(cv constant.Value, t types.Type) (Value, bool) {
 		if c.bv && isIntType(t) {
 			bits, _ := intInfo(t)
 			if bits == 0 {
-				bits = 64
+				// an untyped constant (e.g. a constant shift count) adapts to the other operand
+				return Value{T: nil, S: sBig(n)}, true
 			}
 			m := new(big.Int).Lsh(big.NewInt(1), uint(bits))
 			n = new(big.Int).Mod(n, m)
